@@ -465,6 +465,109 @@ def cached_engine_facts(tree, par):
     return {'writes': wl, 'reads': reads, 'resets': resets}
 
 
+STATE_MODULES = ['expr_parser.py', 'merchant_engine.py', 'merchant_utils.py', 'modifier_parser.py']
+MUTATORS = {'add', 'update', 'append', 'extend', 'insert', 'pop', 'remove', 'clear', 'setdefault', 'discard', 'popitem',
+            'sort', 'reverse', 'appendleft', 'difference_update', 'intersection_update', 'symmetric_difference_update'}
+
+
+def is_constant_name(name):
+    letters = [c for c in name if c.isalpha()]
+    return bool(letters) and all(c.isupper() for c in letters)
+
+
+def is_container_expr(v):
+    if isinstance(v, (ast.Dict, ast.List, ast.Set, ast.ListComp, ast.DictComp, ast.SetComp)):
+        return True
+    if isinstance(v, ast.Call):
+        f = src(v.func).split('.')[-1]
+        return f in ('dict', 'list', 'set', 'defaultdict', 'OrderedDict', 'Counter', 'deque', 'WeakKeyDictionary',
+                     'WeakValueDictionary', 'ChainMap', 'bytearray')
+    return False
+
+
+def process_state_facts(srcdir):
+    """Everything in the classification modules that can carry state from one call to the next within a process:
+    every module-level variable that is not an ALL-CAPS constant, every global/nonlocal declaration, every class-level
+    container, every mutable default argument, every caching decorator.  ALL-CAPS names must never be mutated.
+    The result is compared with the list the model knows (Model.expected_process_state): a new module-level dict
+    is a broken obligation."""
+    out = []
+    for fn in STATE_MODULES:
+        path = os.path.join(srcdir, fn)
+        if not os.path.exists(path):
+            continue
+        mod = fn[:-3]
+        tree = ast.parse(open(path, encoding='utf-8').read(), filename=path)
+        par = parents(tree)
+        consts = set()
+        for st in tree.body:
+            targets = []
+            if isinstance(st, ast.Assign):
+                targets = st.targets
+            elif isinstance(st, (ast.AnnAssign, ast.AugAssign)):
+                targets = [st.target]
+            elif isinstance(st, (ast.For, ast.With, ast.While, ast.Try, ast.Delete)):
+                raise Unknown(f'{fn}: module-level {type(st).__name__} statement (line {st.lineno})')
+            elif isinstance(st, ast.If) and src(st.test) != 'TYPE_CHECKING':
+                raise Unknown(f'{fn}: module-level if (line {st.lineno})')
+            for t in targets:
+                for n in ([t] if not isinstance(t, ast.Tuple) else t.elts):
+                    if not isinstance(n, ast.Name):
+                        raise Unknown(f'{fn}: module-level assignment to {src(n)} (line {st.lineno})')
+                    if is_constant_name(n.id):
+                        consts.add(n.id)
+                    elif n.id.startswith('__') and n.id.endswith('__'):
+                        continue
+                    else:
+                        out.append(f'{mod}:{n.id}')
+        for n in ast.walk(tree):
+            if isinstance(n, (ast.Global, ast.Nonlocal)):
+                f = enclosing_function(n, par)
+                out.append(f'{mod}:{type(n).__name__.lower()}@{f.name if f else "?"}:{",".join(n.names)}')
+            if isinstance(n, (ast.FunctionDef, ast.AsyncFunctionDef, ast.ClassDef)):
+                for d in n.decorator_list:
+                    if 'cache' in src(d).lower() or 'memo' in src(d).lower():
+                        out.append(f'{mod}:{n.name}@{src(d)}')
+            if isinstance(n, (ast.FunctionDef, ast.AsyncFunctionDef, ast.Lambda)):
+                for d in list(n.args.defaults) + [k for k in n.args.kw_defaults if k is not None]:
+                    if is_container_expr(d):
+                        out.append(f'{mod}:{getattr(n, "name", "lambda")}:mutable-default')
+            if isinstance(n, ast.ClassDef):
+                for st in n.body:
+                    if isinstance(st, (ast.Assign, ast.AnnAssign)) and st.value is not None and is_container_expr(st.value):
+                        for t in (st.targets if isinstance(st, ast.Assign) else [st.target]):
+                            if isinstance(t, ast.Name) and t.id != '__slots__':
+                                if is_constant_name(t.id):
+                                    consts.add(t.id)
+                                else:
+                                    out.append(f'{mod}:{n.name}.{t.id}')
+            if isinstance(n, ast.Call) and src(n.func) in ('globals', 'setattr', 'vars', 'locals', 'exec', 'eval') \
+                    and fn != 'expr_parser.py':
+                raise Unknown(f'{fn}: call of {src(n.func)}() (line {n.lineno})')
+            if isinstance(n, ast.Attribute) and src(n) == 'sys.modules':
+                raise Unknown(f'{fn}: sys.modules (line {n.lineno})')
+            # function / class attributes used as storage:  f.cache = …  (anything but self.x / cls-free locals)
+            if isinstance(n, ast.Attribute) and isinstance(n.ctx, ast.Store) and isinstance(n.value, ast.Name):
+                f = enclosing_function(n, par)
+                defined = {x.name for x in ast.walk(tree) if isinstance(x, (ast.FunctionDef, ast.ClassDef))}
+                if n.value.id in defined:
+                    out.append(f'{mod}:{n.value.id}.{n.attr}@{f.name if f else "<module>"}')
+        # constants are never mutated
+        for n in ast.walk(tree):
+            if isinstance(n, ast.Name) and n.id in consts:
+                p = par.get(n)
+                if isinstance(p, ast.Subscript) and p.value is n and isinstance(p.ctx, (ast.Store, ast.Del)):
+                    raise Unknown(f'{fn}: constant {n.id} is written (line {n.lineno})')
+                if isinstance(p, ast.Attribute) and p.value is n and p.attr in MUTATORS and isinstance(par.get(p), ast.Call):
+                    raise Unknown(f'{fn}: constant {n.id} is mutated with .{p.attr}() (line {n.lineno})')
+                if isinstance(p, ast.AugAssign) and p.target is n:
+                    raise Unknown(f'{fn}: constant {n.id} is augmented (line {n.lineno})')
+            if isinstance(n, ast.Attribute) and n.attr in consts and isinstance(par.get(n), ast.Attribute) \
+                    and par[n].attr in MUTATORS and isinstance(par.get(par[n]), ast.Call):
+                raise Unknown(f'{fn}: constant {n.attr} is mutated (line {n.lineno})')
+    return sorted(set(out))
+
+
 def extract(srcdir):
     def load(name):
         p = os.path.join(srcdir, name)
@@ -494,6 +597,7 @@ def extract(srcdir):
     mu, mu_par = load('merchant_utils.py')
     facts['cached'] = cached_engine_facts(mu, mu_par)
     facts['report'] = load_error_report_facts(mu, mu_par)
+    facts['state'] = process_state_facts(srcdir)
     for fn in sorted(os.listdir(srcdir)):
         if fn.endswith('.py') and fn != 'merchant_utils.py':
             txt = open(os.path.join(srcdir, fn), encoding='utf-8').read()
@@ -542,6 +646,11 @@ Definition cached_engine_writes : list string := {cl(c['writes'])}.
 (* the show-once report of .rules load errors (process-level state with history; influences stderr only) *)
 Definition reports_load_errors : bool := {'true' if f['report']['present'] else 'false'}.
 Definition load_error_report : list string := {cl(f['report']['facts'])}.
+
+(* every place in expr_parser / merchant_engine / merchant_utils / modifier_parser that can carry state across calls
+   within a process (module-level variables, global declarations, class-level containers, mutable defaults, caching
+   decorators, function attributes) *)
+Definition process_level_state : list string := {cl(f['state'])}.
 
 (* does get_all_rules start by resetting _cached_engine (proposed_fixes/C07-reset-cached-engine.diff)? *)
 Definition get_all_rules_resets_cached_engine : bool := {'true' if c['resets'] else 'false'}.
